@@ -239,7 +239,7 @@ class FakeNet:
         entry = self.script.popleft() if self.script else self.default
         kind = entry[0]
         lat = entry[1] if len(entry) > 1 else 0.0
-        self.attempts.append((self.loop.time(), kind))
+        self.attempts.append((self.loop.time(), kind, host, port))
         self._event("attempt", kind, lat)
         self.inflight += 1
         try:
@@ -352,27 +352,18 @@ class FakeDatagramTransport(asyncio.DatagramTransport):
         return default
 
     def deliver(self, data: bytes, addr) -> None:
-        """Same exception semantics as a real _read_ready handle: errors in
-        datagram_received are reported to the loop's exception handler."""
+        """Same exception semantics as a real `_SelectorDatagramTransport._read_ready`:
+        `datagram_received` is called outside any try block, so an exception it
+        raises propagates to the event loop's handle runner (reported to the loop's
+        exception handler); the transport stays open."""
         if self.closed:
             return
         self.udp.delivered.append((self.udp.loop.time(), self.eid, bytes(data)))
         try:
             self.protocol.datagram_received(bytes(data), addr)
-        except (SystemExit, KeyboardInterrupt):
-            raise
-        except BaseException as exc:  # noqa: BLE001 - mirrors _fatal_error
-            self.udp.loop.call_exception_handler({
-                "message": "Fatal error on transport (datagram_received)",
-                "exception": exc,
-                "transport": self,
-                "protocol": self.protocol,
-            })
+        except BaseException as exc:  # noqa: BLE001
             self.udp.fatal.append((self.udp.loop.time(), self.eid, repr(exc)))
-            # _SelectorDatagramTransport._fatal_error force-closes the transport
-            self.closed = True
-            self.udp.closed.append((self.udp.loop.time(), self.eid))
-            self.udp.loop.call_soon(self.protocol.connection_lost, exc)
+            raise
 
 
 class FakeUdp:
